@@ -379,7 +379,7 @@ func cleanSymlinkCases(spok, tmp string, r *rand.Rand, n int, st *cleanStats, bo
 		os.WriteFile(filepath.Join(proj, "gen", "a.c"), []byte("a"), 0o644)
 		os.WriteFile(filepath.Join(proj, "notes.md"), []byte("n"), 0o644)
 		// links: relative path in the project -> target
-		links := [][2]string{{"gen/latest.c", "../keep.txt"}, {"gen/ext.c", "../../sibling/s.txt"}, {"out.txt", "keep.txt"}, {"bin", "../sibling"}, {"gen/dangling.c", "nowhere"}}
+		links := [][2]string{{"gen/latest.c", "../keep.txt"}, {"gen/ext.c", "../../sibling/s.txt"}, {"out.txt", "keep.txt"}, {"bin", "../sibling"}, {"gen/dangling.c", "nowhere"}, {"latest", "build-42"}, {"current.lnk", "gone/for/good"}}
 		made := map[string]bool{}
 		for _, l := range links {
 			if r.Intn(3) != 0 {
@@ -388,7 +388,8 @@ func cleanSymlinkCases(spok, tmp string, r *rand.Rand, n int, st *cleanStats, bo
 				}
 			}
 		}
-		outPool := []string{"gen/*.c", "out.txt", "bin", "*.txt", "gen/*", "*"}
+		// "latest" and the variable CUR name links that may point at nothing: they are declared outputs all the same
+		outPool := []string{"gen/*.c", "out.txt", "bin", "*.txt", "gen/*", "*", "latest", "@CUR"}
 		var outs []string
 		for _, o := range outPool {
 			if r.Intn(3) == 0 {
@@ -399,12 +400,19 @@ func cleanSymlinkCases(spok, tmp string, r *rand.Rand, n int, st *cleanStats, bo
 			outs = []string{outPool[r.Intn(len(outPool))]}
 		}
 		var qs []string
-		for _, o := range outs {
+		pre := ""
+		for i, o := range outs {
+			if o == "@CUR" {
+				pre = "CUR := \"current.lnk\"\n\n"
+				qs = append(qs, "CUR")
+				outs[i] = "current.lnk"
+				continue
+			}
 			qs = append(qs, `"`+o+`"`)
 		}
-		src := fmt.Sprintf("task ta() -> (%s) {\n    echo hi\n}\n", strings.Join(qs, ", "))
+		src := pre + fmt.Sprintf("task ta() -> (%s) {\n    echo hi\n}\n", strings.Join(qs, ", "))
 		if len(qs) == 1 {
-			src = fmt.Sprintf("task ta() -> %s {\n    echo hi\n}\n", qs[0])
+			src = pre + fmt.Sprintf("task ta() -> %s {\n    echo hi\n}\n", qs[0])
 		}
 		os.WriteFile(filepath.Join(proj, "spokfile"), []byte(src), 0o644)
 		cwd := proj
